@@ -7,6 +7,9 @@ CONSTANTS
   PubLens = {7, 8, 12, 13, 28}
   PubHLs = {0, 7, 8, 9, 12, 13, 14, 255}
   MaxN = 40
+  MaxInt = 1
+  MaxShape = 15
+  IntAnywhere = FALSE
   TableOn = TRUE
 INVARIANTS TypeOK C14_ServerUp
 PROPERTIES StepsOK
